@@ -327,6 +327,21 @@ def f3_instances(results):
     return hits
 
 
+def clone_audit(case):
+    """Index of the first observation in which a fresh clone differs from its original (stream S11)."""
+    ops, obs = case['ops'], case['obs']
+    na = len(WORLDS[case['world']].archs)
+    blk = 1 + 4 * na
+    for i, (o, ob) in enumerate(zip(ops, obs)):
+        if o[0] == 'clone' and ob and ob[0] == 1 and i + 2 * blk < len(ops) and ops[i + 1][0] == 'switch' and ops[i + 1 + blk][0] == 'switch':
+            a_ = obs[i + 2:i + 1 + blk]
+            b_ = obs[i + 2 + blk:i + 1 + 2 * blk]
+            for j, (x, y) in enumerate(zip(a_, b_)):
+                if x != y:
+                    return i + 2 + blk + j
+    return None
+
+
 # ------------------------------------------------------------------------------- main flow
 
 def check(pid, tier, seed):
@@ -429,6 +444,18 @@ def check(pid, tier, seed):
                                 'the search (specification oracle on additional histories) found no input on which the property itself fails')
             path = write_replay(pid, payload)
             violations.append('VIOLATION property=%s replay=%s no-failing-input-found' % (pid, path))
+
+    # C13: the clone audit of stream S11 -- the observation blocks of original and clone must be equal
+    if pid == 'C13' and not violations:
+        for r in all_results:
+            bad = clone_audit(r['case'])
+            if bad is not None:
+                c = r['case']
+                path = write_replay(pid, dict(property=pid, kind='specification-violation', world=c['world'], config=c['config'], seed=seed,
+                                              reason='after clone, the clone answers differently from the original', failing_op_index=bad,
+                                              ops=[O.to_rust(o) for o in c['ops'][:bad + 1]], ops_struct=c['ops'][:bad + 1], observed=c['obs'][:bad + 1]))
+                violations.append('VIOLATION property=%s replay=%s' % (pid, path))
+                break
 
     # known findings: reported, never suppressing anything else
     if pid == 'C03':
